@@ -46,6 +46,10 @@ SCENARIOS = {
     "obs": dict(template="T_obs", base=["b:good"], reports=REPORTS_OBS, slots=["s1"], ign=[False]),
     "warm": dict(template="T_warm", base=["b:good", "b:other"], reports=["r:wmonth:orig"], slots=["s1", "s2"], ign=[False]),
 }
+# free-form histories: every operation allowed at every position (template T_free), explored by TLC's random simulation
+SCENARIOS["free"] = dict(template="T_free", base=["b:good", "b:short", "b:poor"], reports=["r:wmonth:orig", "r:weast:orig", "r:wweek:absent", "x:wmonth"],
+                         slots=["s1", "s2"], ign=[True, False], simulate=True)
+SIM_NUM = {"n": 300}          # behaviours per simulated scenario instance (set per tier by run_property)
 FAMILIES = {
     "quick": [("daily", "legacy"), ("billing", "billing"), ("hourly", "default")],
     "thorough": [("daily", "legacy"), ("billing", "billing"), ("hourly", "default"), ("daily", "current"), ("daily", "custommaps"),
@@ -71,8 +75,50 @@ def cfg_text(scen, fam, prof, aggs):
     return "\n".join(lines) + "\n"
 
 
+def simulate_histories(scen, fam, prof, num, depth=12):
+    """Random behaviours of the scenario (tlc -simulate, seeded): one history per behaviour; the invariants are checked along them."""
+    import glob
+    import re
+    import shutil
+    aggs = ["None"]
+    tag = "life_%s_%s_%s" % (scen, fam, prof)
+    cfg = "gen_%s.cfg" % tag
+    text = "\n".join(l for l in cfg_text(scen, fam, prof, aggs).splitlines() if not l.startswith("PROPERTY")) + "\n"
+    with open(os.path.join(tlc.SPEC, cfg), "w") as f:
+        f.write(text)
+    wd = tlc.workdir(tag)
+    simdir = os.path.join(wd, "sim")
+    shutil.rmtree(simdir, ignore_errors=True)
+    os.makedirs(simdir)
+    seed = common.rng("simulate", scen, fam, prof).randrange(1, 2 ** 31)
+    try:
+        res = tlc.run("LifeMC", cfg, tag, workers=1, simulate="file=%s/tr,num=%d" % (simdir, num), depth=depth, seed=seed)
+    finally:
+        os.remove(os.path.join(tlc.SPEC, cfg))
+    if res.violations:
+        raise tlc.TLCError("Lifecycle theorems violated in a simulated behaviour of %s/%s: %s" % (scen, fam, res.violations[:3]))
+    hists = {}
+    nstates = 0
+    for path in sorted(glob.glob(os.path.join(simdir, "tr_*"))):
+        blocks = re.split(r"^STATE_\d+ ==\s*$", open(path).read(), flags=re.M)
+        nstates += len(blocks) - 1
+        last = blocks[-1].split("\n\n")[0].split("=====")[0]
+        h = tlaval.to_json(tlaval.parse_state(last)["hist"])
+        hists[json.dumps(h, sort_keys=True)] = h
+    if not hists:
+        raise tlc.TLCError("tlc -simulate produced no behaviour for %s/%s (see %s/tlc.out)" % (scen, fam, wd))
+    m = re.search(r"The number of states generated: (\d+)", res.out)
+    gen = int(m.group(1)) if m else nstates
+    ops = Counter(a["op"] for h in hists.values() for a in h)
+    stats = {"states": gen, "transitions": gen, "depth": depth, "wall": res.wall, "coverage": {k: [v, v] for k, v in ops.items()},
+             "histories": len(hists), "aggs": aggs, "simulated": True, "seed": seed}
+    return [hists[k] for k in sorted(hists)], stats
+
+
 def enumerate_histories(scen, fam, prof):
     """Run TLC on the scenario; return (maximal histories, TLC stats)."""
+    if SCENARIOS[scen].get("simulate"):
+        return simulate_histories(scen, fam, prof, SIM_NUM["n"])
     aggs = ["None", "monthly"] if fam == "billing" and scen in ("store",) else ["None"]
     if fam == "billing" and scen == "gate":
         aggs = ["None", "weekly"]
